@@ -392,6 +392,51 @@ def _cross3(rng, count):
     return L.sample(rng, out, count)
 
 
+RING3 = [(0, 0), (0, 1), (0, 2), (1, 2), (2, 2), (2, 1), (2, 0), (1, 0)]     # the border of the 3x3 board, clockwise
+
+
+def _cross3_ordered(rng, count, wrong):
+    """3x3 boards with the black centre whose numbers fit one direction of travel (every gate subset, every start, every
+    subset of the gates numbered by position, both directions); wrong > 0: that many variants with one number changed"""
+    bl = [[0, 0, 0], [0, 1, 0], [0, 0, 0]]
+    cand = {(0, 1): 1, (1, 2): 0, (2, 1): 1, (1, 0): 0}
+    out = []
+    for k in range(1, 5):
+        for cells in itertools.combinations(sorted(cand), k):
+            for o in RING3:
+                if o in cells:
+                    continue
+                i0 = RING3.index(o)
+                cw = [c for c in RING3[i0:] + RING3[:i0] if c in cells]
+                for seq in (cw, cw[::-1]):
+                    for mask in range(1 << k):
+                        gates = [(c[0], c[1], cand[c], 1, (seq.index(c) + 1) if (mask >> j) & 1 else -1)
+                                 for j, c in enumerate(cells)]
+                        out.append(_mk(3, 3, o, bl, gates))
+    good = L.sample(rng, out, count)
+    yield from good
+    for pb in L.sample(rng, [p for p in out if p["gates"]], wrong):
+        pb = _mk(3, 3, pb["origin"], pb["black"], pb["gates"])
+        g = rng.choice(pb["gates"])
+        g[4] = rng.choice([v for v in range(1, len(pb["gates"]) + 2) if v != g[4]])
+        yield pb
+
+
+def _planted(h, w, rng, count, p_wrong=0.2):
+    made = 0
+    tries = 0
+    while made < count and tries < 50 * count:
+        tries += 1
+        pb = _planted_board(h, w, rng)
+        if pb is None:
+            continue
+        if pb["gates"] and rng.random() < p_wrong:
+            g = rng.choice(pb["gates"])
+            g[4] = rng.randint(1, len(pb["gates"]) + 1)
+        made += 1
+        yield pb
+
+
 def families(tier, rng):
     th = tier == "thorough"
     # every board in the format on the tiniest grids (no loop fits on a single row / column: all unsolvable)
@@ -400,14 +445,17 @@ def families(tier, rng):
     for (h, w) in [(2, 3), (3, 2)]:
         allb = list(_all_small(h, w, 2, 1))
         yield from (allb if th else L.sample(rng, allb, 60))
-    # 3x3: the smallest board with passable gates
-    yield from _cross3(rng, 400 if th else 90)
+    # 3x3: the smallest board with passable gates; numbers that fit a direction of travel, and numbers that do not
+    yield from _cross3_ordered(rng, 400 if th else 110, 150 if th else 40)
+    yield from _cross3(rng, 200 if th else 40)
     for nb in (0, 1, 2, 3):
-        yield from _boards(3, 3, rng, nb, 4, 40 if th else 10)
-    # 3x4 / 4x3 / 2x5 / 2x6: gates of length 2, gates on the edge, several loops to choose from
+        yield from _boards(3, 3, rng, nb, 4, 30 if th else 6)
+    yield from _planted(3, 3, rng, 120 if th else 40)
+    # 3x4 / 4x3: gates of length 2, gates on the edge, several loops to choose from; boards built around a loop
     for (h, w) in [(3, 4), (4, 3)]:
+        yield from _planted(h, w, rng, 40 if th else 10)
         for nb in (1, 2, 3):
-            yield from _boards(h, w, rng, nb, 4, 12 if th else 4)
+            yield from _boards(h, w, rng, nb, 4, 8 if th else 2)
     for (h, w) in [(2, 5), (5, 2), (2, 6), (1, 6), (6, 1)]:
         yield from _boards(h, w, rng, rng.randint(0, 2), 3, 6 if th else 2)
 
